@@ -221,4 +221,28 @@ def InDomain (c : Cfg) : Prop :=
 
 instance (c : Cfg) : Decidable (InDomain c) := by unfold InDomain; infer_instance
 
+/-! ### preparation of the three files before the workers start
+
+    if append: rms_offset = size(ap_rms.bin); time_offset = size(ap_time.bin); offset = size(output)
+    else:      rms_offset = time_offset = offset = 0; open(f, "wb").close() for the three files      -/
+
+/-- sizes (bytes) of the output / RMS / time files -/
+structure Sizes where
+  out : Nat
+  rms : Nat
+  time : Nat
+deriving Repr, DecidableEq
+
+/-- what the preparation leaves: the sizes of the three files and the three offsets the workers seek from -/
+structure Prep where
+  sizes : Sizes
+  offset : Nat
+  rmsOff : Nat
+  timeOff : Nat
+deriving Repr, DecidableEq
+
+/-- `append = true`: files kept, offsets = their sizes; `append = false`: files emptied, offsets 0. -/
+def prepare (append : Bool) (before : Sizes) : Prep :=
+  if append then ⟨before, before.out, before.rms, before.time⟩ else ⟨⟨0, 0, 0⟩, 0, 0, 0⟩
+
 end IblVerif.DestripeSched
